@@ -299,12 +299,12 @@ theorem nodup_map_of_factor {α β γ : Type} (l : List α) (f : α → β) (k :
     rw [hk a (by simp), ← hfb, ← hk b (List.mem_cons_of_mem _ hb)]
     exact List.mem_map_of_mem hb
 
-theorem tagPairs_key (u : UInfo) (ops : List TagOp) (p : Str × Str × Str) (hp : p ∈ tagPairs u ops) :
+theorem tagPairs_key (u : UInfo) (ops : List TagOp) (p : Str × Str × Option Str) (hp : p ∈ tagPairs u ops) :
     p.1 = normTagKey u p.2.1 ∧ ∃ op ∈ ops, p.2.1 ∈ tagsOrDefault op := by
   unfold tagPairs at hp
   obtain ⟨op, hop, hp⟩ := List.mem_flatMap.1 hp
-  obtain ⟨t, ht, rfl⟩ := List.mem_map.1 hp
-  exact ⟨rfl, op, hop, ht⟩
+  obtain ⟨h1, h2⟩ := opTagPairs_mem u op.id _ [] p hp
+  exact ⟨h1, op, hop, h2⟩
 
 /-- The canonical tag of a group is one of the tags of some operation, and its normalised key is the group's key. -/
 theorem groupEndpoints_canon (u : UInfo) (ops : List TagOp) (g : TagGroup) (hg : g ∈ groupEndpoints u ops) :
